@@ -94,7 +94,7 @@ example : ∃ (prog : List (Stmt Nat)) (s : Nat), checksFirst prog = false ∧
     store exactly as they were (every reachable or unreachable state, every request). -/
 theorem C10_frame_node (c : Cfg) (s s' : St) (op : Op)
     (h : step c s op = some (s', .err)) : s'.mem = s.mem ∧ s'.disk = s.disk := by
-  cases op <;> simp only [step, allowlistOp, keysend, newChannel, forgetChannel, restart, heartbeat, addBlocks, removeBlock,
+  cases op <;> simp only [step, allowlistOp, keysend, newChannel, forgetChannel, signInvoice, restart, heartbeat, addBlocks, removeBlock,
     Core.updateNode, Core.updateAllowlist] at h
   all_goals (repeat' split at h)
   all_goals first
@@ -452,6 +452,12 @@ def s0 : St := St.init (Velocity.VC.ofSpec ⟨10000000, .hourly⟩)
 example : ∃ s1 s2, step cfg0 s0 (.al .add [some 1]) = some (s1, .ok) ∧ s1.mem.allow = [1]
     ∧ step cfg0 s1 (.al .set [some 2, none]) = some (s2, .err) ∧ s2.mem.allow = [1] :=
   ⟨_, _, rfl, rfl, rfl, rfl⟩
+
+/-- an issued invoice: the same one again is answered, a different invoice for the same hash is refused
+    (and changes nothing) -/
+example : ((run cfg0 s0 [.sinv 0 100000, .sinv 0 100000, .sinv 0 1000, .sinv 1 0, .sinv 1 5000, .sinv 1 0]).map
+    (fun r => (r.2, r.1.mem.issued))) = some ([.ok, .ok, .err, .ok, .ok, .err], [(0, 100000), (1, 5000)]) := by
+  decide
 
 /-- a refused channel creation after its id was retired -/
 example : ((run cfg0 s0 [.newch 3, .forget 1, .newch 3, .newch 2]).map (·.2)) = some [.ok, .ok, .err, .err] := by
